@@ -1,2 +1,47 @@
-(* C02 - theorems follow in this commit series *)
-From TW Require Import Bytes.
+(* C02 - @if/@elseif/@else renders exactly the first truthy branch.
+   The theorems are about the evaluator model (tied to evaluator.go by the correspondence run);
+   the specification semantics of Spec/Template.v is the oracle of the check. *)
+From TW Require Import Bytes Floats Values Ast Eval Expr Template Control.
+
+Theorem C02_one_truthiness v : truthy v = truthy_spec v.
+Proof. exact (truthy_is_spec v). Qed.
+Print Assumptions C02_one_truthiness.
+
+Theorem C02_falsy_values :
+  truthy (VBool false) = false /\ truthy VNil = false /\ truthy (VInt 0) = false /\
+  truthy (VFloat (f_ofZ 0)) = false /\ truthy (VFloat (f_neg (f_ofZ 0))) = false /\ truthy (VStr []) = false /\
+  truthy (VArr []) = true /\ truthy (VObj []) = true.
+Proof. exact falsy_values. Qed.
+Print Assumptions C02_falsy_values.
+
+Theorem C02_if_true_branch cx f en ln c thn alts alt cv :
+  eval_expr cx f en c = Ok cv -> truthy cv = true ->
+  eval_stmt cx (S f) en (SIf ln c thn alts alt) =
+  (let! r := eval_block cx f ([] :: en) thn [] in Ok (fst r, tl (snd r))).
+Proof. exact (if_true_branch cx f en ln c thn alts alt cv). Qed.
+Print Assumptions C02_if_true_branch.
+
+(* the chosen @elseif branch: the right-hand side does not mention the later branches, so their
+   conditions are not evaluated and an error in them cannot surface *)
+Theorem C02_first_truthy_elseif cx f en c b rest alt cv :
+  eval_expr cx f en c = Ok cv -> truthy cv = true ->
+  eval_alts cx (S f) en ((c, b) :: rest) alt =
+  (let! r := eval_block cx f ([] :: en) b [] in Ok (fst r, tl (snd r))).
+Proof. exact (elseif_true_branch cx f en c b rest alt cv). Qed.
+Print Assumptions C02_first_truthy_elseif.
+
+Theorem C02_falsy_condition_skips cx f en c b rest alt cv :
+  eval_expr cx f en c = Ok cv -> truthy cv = false ->
+  eval_alts cx (S f) en ((c, b) :: rest) alt = eval_alts cx f en rest alt.
+Proof. exact (elseif_false_goes_on cx f en c b rest alt cv). Qed.
+Print Assumptions C02_falsy_condition_skips.
+
+Theorem C02_nothing_when_no_branch cx f en : eval_alts cx (S f) en [] None = Ok (VNil, en).
+Proof. exact (no_branch_no_else cx f en). Qed.
+Print Assumptions C02_nothing_when_no_branch.
+
+Theorem C02_text_around_is_unaffected cx f en s ss out r str :
+  eval_stmt cx f en s = Ok r -> str_of (fst r) = Ok str ->
+  eval_program cx (S f) en (s :: ss) out = eval_program cx f (snd r) ss (out ++ str).
+Proof. exact (program_concatenates cx f en s ss out r str). Qed.
+Print Assumptions C02_text_around_is_unaffected.
